@@ -157,6 +157,10 @@ func init() {
 			runG11(c.Repo, c.Rep)
 			g14ReservedProvenance(c.Repo, c.Rep)
 			g14AddNameUsed(c.Repo, c.Rep)
+			// "call identifier replaced in the AST and file rewritten": the rewrite must truncate, go to the file's own
+			// path and print the file's own tree, or a successful -autoname/-dedup run leaves a package that does not type-check
+			runG4(c.Repo, c.Rep)
+			runG5(c.Repo, c.Rep)
 			c.Rep.floor("G7", 40)
 		},
 		explanation: "G7: SetFuncName's structured control flow is enumerated path by path over the atoms {name-of-types hit, hit==requested, requested bound, bound types eq, dedup, autoname}; each of the 36 consistent states must yield exactly the outcome the property prescribes (requested / existing only with -dedup / fresh only with -autoname / error / register in both tables). newName returns a candidate that was tested after its last update against both funcToTyps and reserved, built from the current prefix; GetFuncName registers exactly the name it returns; the reserved set is complete before any table uses it; nameOf answers only under eq (G11). Not decided: eq uses assignability rather than identity (outside the property's pairwise-non-assignable quantifier); type-correctness after renaming (C01).",
